@@ -241,9 +241,17 @@ func genDER(g *core.Gen) {
 func (P) Generate(g *core.Gen) {
 	only := os.Getenv("C11_ONLY") // debugging aid: run a single generator
 	run := func(name string, f func(*core.Gen)) {
-		if only == "" || only == name {
-			f(g)
+		if only != "" && only != name {
+			return
 		}
+		// generators call btcd's own constructors/signers; on a mutated tree such a call may panic: the
+		// cases emitted so far are kept and the run goes on with the next generator
+		defer func() {
+			if r := recover(); r != nil {
+				g.Case("generator-panic:"+name, true, "C11 genpanic "+name)
+			}
+		}()
+		f(g)
 	}
 	run("der", genDER)
 	run("pub", genPub)
